@@ -706,6 +706,24 @@ def main():
                     type_facts(ck, snake(n), inspect_env(env, heavy=False))
                 action_sample(ck, snake(n), env.action_space, ["real"] + (["fp32"] if ck.thorough else []))
             pump(pool)
+        # documented observation options (boolean constructor flags): the declared observation space follows every single flag
+        import inspect as _inspect
+        from mujoco import mjx as _mjx
+        from lerax.env.mujoco.base_mujoco import MujocoEnvState as _MjState
+        flag_envs = ["Humanoid", "Ant"] if not ck.thorough else [n for n in MUJOCO]
+        for n in flag_envs:
+            cls = getattr(MJ, n)
+            flags = [p_.name for p_ in _inspect.signature(cls.__init__).parameters.values()
+                     if isinstance(p_.default, bool) and (p_.name.startswith("include_") or p_.name.startswith("exclude_"))]
+            for fl_ in flags:
+                with ck.section(f"types.{snake(n)}.flag.{fl_}"):
+                    dflt = _inspect.signature(cls.__init__).parameters[fl_].default
+                    env = cls(**{fl_: not dflt})
+                    ob = jax.eval_shape(lambda k: env.observation(_MjState(_mjx.make_data(env.model), jnp.array(0.0)), key=k), jr.key(0))
+                    sp = env.observation_space
+                    ok = tuple(ob.shape) == tuple(sp.shape) and str(ob.dtype) == str(sp.low.dtype)
+                    ck.fact(f"types.{snake(n)}.obs@{fl_}={not dflt}", ok, f"observation {ob.dtype}{list(ob.shape)} vs declared space {sp.low.dtype}{list(sp.shape)}")
+            pump(pool)
         for n in G1:
             with ck.section(f"actions.{snake(n)}"):
                 env = getattr(G1M, n)()
